@@ -22,6 +22,13 @@ Theorem C07_constructor_output_is_sealable : forall iss aud sub cmd pol ng r12 m
 Proof. exact dlg_new_constructed. Qed.
 Print Assumptions C07_constructor_output_is_sealable.
 
+Theorem C07_invocation_constructor_output_is_sealable : forall iss sub aud cmd args prf ng r12 meta exp iat cause t,
+  inv_new iss sub aud cmd args prf ng r12 meta exp iat cause = Ok t ->
+  did_ok iss -> did_ok sub -> match aud with Some d => did_ok d | None => True end ->
+  forallb (fun kv => ints_in53 (snd kv)) args = true -> keys_nodup args = true ->
+  no_null_values meta = true -> no_null_values args = true -> inv_constructed t.
+Proof. exact inv_new_constructed. Qed.
+Print Assumptions C07_invocation_constructor_output_is_sealable.
 (* through the envelope, for any signature scheme whose signatures verify under the issuer's key *)
 Theorem C07_delegation_seal_unseal : forall verify header_of sign t hdr,
   dlg_constructed t -> header_of (dk_iss t) = Ok hdr -> (forall m, verify (dk_iss t) m (sign m) = true) ->
